@@ -312,6 +312,10 @@ func c01h2NewSession() (*c01h2Session, string) {
 }
 
 func c01h2Run(c *c01hCase) (obs c01h2Obs, harness string) {
+	return c01hRerun(func() (c01h2Obs, string) { return c01h2RunOnce(c) })
+}
+
+func c01h2RunOnce(c *c01hCase) (obs c01h2Obs, harness string) {
 	hs, h := c01h2NewSession()
 	if h != "" {
 		return obs, h
@@ -321,6 +325,10 @@ func c01h2Run(c *c01hCase) (obs c01h2Obs, harness string) {
 }
 
 func c01h2RunSeq(cs []c01hCase) (obs []c01h2Obs, harness string) {
+	return c01hRerun(func() ([]c01h2Obs, string) { return c01h2RunSeqOnce(cs) })
+}
+
+func c01h2RunSeqOnce(cs []c01hCase) (obs []c01h2Obs, harness string) {
 	hs, h := c01h2NewSession()
 	if h != "" {
 		return nil, h
@@ -417,7 +425,7 @@ func (hs *c01h2Session) exchange(c *c01hCase) (obs c01h2Obs, harness string) {
 	if dnR.err != nil {
 		return obs, "frames written downstream do not parse: " + dnR.err.Error()
 	}
-	deadline := time.Now().Add(c01hTimeout)
+	deadline := c01hNewDeadline()
 	for {
 		s.p.asMux.RLock()
 		n := s.p.activeStreams.Len()
@@ -425,7 +433,8 @@ func (hs *c01h2Session) exchange(c *c01hCase) (obs c01h2Obs, harness string) {
 		if n == 0 {
 			break
 		}
-		if time.Now().After(deadline) {
+		if deadline.expired() {
+			c01hDump("the proxy still has an active stream")
 			return obs, "timeout: the proxy still has an active stream after the response was written"
 		}
 		time.Sleep(20 * time.Microsecond)
@@ -619,6 +628,7 @@ func TestVerifC01HTTP2Targets(t *testing.T) {
 		p.Distinct(c.Target)
 		c01h2Check(p, c)
 	})
+	c01hReportRecovered(p)
 	p.End(complete,
 		fmt.Sprintf("HTTP/2 -> HTTP/2 through the real proxy: :path = (('/' | paths of 1..%d segments over {a,%%2F,%%20,%%41,..,.,\"\",*,a+b,%%C3%%A4}) x queries {absent, ?, ?a=b, ?a=%%20&b, ?=, ?a=b?c} + %d further targets) x {GET, POST with a body}, plus OPTIONS *; fresh connections per exchange, x/net/http2 framer + hpack as both peers", maxSeg, len(c01hExtraTargets)),
 		"complete product; distinct = :path; compared: :method, :path byte-for-byte, :authority, regular header multiset (values byte-for-byte; content-length not compared; date added when absent not compared; :scheme and field order across different names enumerated only), body; response: :status, header multiset, body")
@@ -651,6 +661,7 @@ func TestVerifC01HTTP2Headers(t *testing.T) {
 		p.Distinct(c.Method + "\n" + c01hFieldsKey(c.ReqFields) + "--\n" + c01hFieldsKey(c.RespFields))
 		c01h2Check(p, c)
 	})
+	c01hReportRecovered(p)
 	p.End(complete,
 		fmt.Sprintf("request field sets = all sub-sequences of <= %d fields of the HTTP/1 request alphabet without Connection, names in lower case (%d sets) x response field sets likewise (%d sets) x {GET, POST+body}; full product", max, len(reqSets), len(respSets)),
 		"distinct = (method, request fields, response fields); header multiset compared as in part http2-request-targets")
@@ -722,6 +733,7 @@ func TestVerifC01HTTP2Bodies(t *testing.T) {
 		p.Distinct(fmt.Sprintf("%s|%s|%s|%d|%s|%s", c.Method, c.ReqBody, c.ReqFraming, c.Status, c.RespBody, c.RespFrame))
 		c01h2Check(p, c)
 	})
+	c01hReportRecovered(p)
 	p.End(complete,
 		fmt.Sprintf("methods %v x request bodies %v (DATA frames of <= 16384 bytes); body-less {GET,HEAD,DELETE,OPTIONS,PURGE,POST,PUT}; response bodies x {200,404,500}; status codes %v x {END_STREAM on HEADERS, empty DATA, small body} x {GET,HEAD,POST}", methods, bodies, statuses),
 		"complete products as listed; bodies stay below the initial 65535-byte flow-control window (flow control is C18)")
@@ -839,6 +851,7 @@ func TestVerifC01HTTP2Sequences(t *testing.T) {
 			p.Sample(map[string]interface{}{"sequence": names})
 		}
 	})
+	c01hReportRecovered(p)
 	p.End(complete,
 		fmt.Sprintf("all sequences of %d exchanges over an alphabet of %d diverse exchanges (the HTTP/1 keep-alive alphabet in HTTP/2 form) as consecutive streams 1,3,5.. of ONE downstream HTTP/2 connection, multiplexed by the real HTTP/2 pool on one upstream connection; the HPACK dynamic tables of MOSN's two decoders and two encoders carry over from stream to stream", n, len(alpha)),
 		"complete product; every stream is judged like a single exchange; a finding of a later stream that the same exchange does not show on fresh connections gets its own connection-reuse key")
